@@ -37,7 +37,9 @@ class Rule:
         self.findings.append({"rule": self.id, "key": full, "site": site, "msg": msg, "detail": detail})
 
     def note(self, site, msg):
-        self.notes.append({"site": site, "msg": msg})
+        n = {"site": site, "msg": msg}
+        if n not in self.notes:
+            self.notes.append(n)
 
     @property
     def n(self):
@@ -79,7 +81,8 @@ class Ctx:
                     known_hits.append((f, known_keys[f["key"]]))
                 else:
                     violations.append(f)
-        if floor_errors:
+        if floor_errors and not violations:
+            # a rule that matched fewer sites than were confirmed by reading cannot pass vacuously
             raise AnalysisError("; ".join(floor_errors))
 
         replay_dir = os.path.join(EVIDENCE_DIR, "replay")
@@ -111,6 +114,8 @@ class Ctx:
         summary = "%s %s: %d rules, %d obligations, %d discharged, %d known findings, %d violations (%.2fs)" % (
             self.pid, self.tier, len(self.rules), obligations, discharged, len(known_hits), len(violations),
             time.time() - self.t0)
+        for fe in floor_errors:
+            lines.append("  floor: " + fe)
         for r in self.rules:
             lines.append("  rule %-7s %3d instances %s%s" % (
                 r.id, r.n, r.title,
